@@ -575,6 +575,10 @@ def relabelled(ctx, facts, fn, src_rule, dst_rule, only_what=None):
 
 
 def run(ctx, facts):
+    ctx.rule("M9", "a tree bin retired whole does not also have its nodes' values retired one by one (rule O10 of C04): a value handed to the "
+                   "collector twice is freed while the second retirement still refers to it", floor=1)
+    from .rules_c04 import rule_o10
+    rule_o10(ctx, facts, rule="M9")
     ctx.rule("M8", "bins are mutated and their nodes / values retired only inside a bin-lock region, after re-validating the locked head (rule L1 of C01): "
                    "otherwise a writer that waited for the lock works on a list that transfer has already copied and retired", floor=11)
     from .rules_c01 import rule_l1
